@@ -76,7 +76,7 @@ completion callback has not yet registered the outcome (the only moment a pendin
 structure InvT (c : Cfg) (t0 : Nat) (hole : Option Nat) (s : St) : Prop where
   t0_le : t0 ≤ s.trk.length
   callId_pos : 0 < s.callId
-  stale : ∀ i, i < t0 → (getTrk s i).callId ≠ s.callId
+  stale : ∀ i, i < t0 → (getTrk s i).callId < s.callId
   ownId : ∀ i, t0 ≤ i → i < s.trk.length → (getTrk s i).callId = s.callId
   parked_lt : ∀ i ∈ s.parked, i < s.trk.length
   parked_nodup : s.parked.Nodup
